@@ -1,4 +1,4 @@
-import WacProofs.Lemmas.AggAll
+import WacProofs.Lemmas.AggAllTotal
 /-
   C09 — merged import requirements satisfy every contributor, order-independently: GENERAL theorems
   about the executable model `Wac.aggregate` / `Wac.aggregateAll` (WacModel/Aggregate.lean, the
@@ -61,7 +61,7 @@ theorem frag_invariant (cs : List Req) (hf : fragB cs = true) (A : AggState)
         rw [hmap]; exact hpw
       exact (List.pairwise_map (f := fun p : Req × Forest => p.1) (R := fun a b : Req => a.2.1.uid ≠ b.2.1.uid)).1 this)
     (by rw [hmap]; exact h)
-  simpa using this
+  simpa using this.1
 
 theorem mem_withForests {cs : List Req} (hall : ∀ r, r ∈ cs → (flatForest r).isSome = true) {r : Req} (hr : r ∈ cs) :
     ∃ G, (r, G) ∈ withForests cs ∧ flatForest r = some G := by
@@ -118,6 +118,37 @@ theorem ok_of_isSome {ε α : Type} {x : Except ε α} (h : x.toOption.isSome = 
 
 example : (∃ A, aggregateAll exList Agg.empty = .ok A) ∧ rB ∈ exList :=
   ⟨ok_of_isSome (by decide +kernel), by decide⟩
+
+/-- leaf kinds of a closed collection unfold item-wise within any fuel ≥ `defined.length + 2` -/
+theorem unfoldItems_leaf_fuel {T : Types} (hc : Closed T) : ∀ (E : List (Str × ItemKind)) (F : Forest) (n m : Nat),
+    (∀ x, x ∈ E → LeafK x.2) → unfoldItems (T.unfoldKind n) E = some F → T.defined.length + 2 ≤ m →
+    unfoldItems (T.unfoldKind m) E = some F
+  | [], F, n, m, _, h, _ => by simpa [unfoldItems] using h
+  | (nm, k) :: E, F, n, m, hl, h, hm => by
+    obtain ⟨t, fr, h1, h2, rfl⟩ := unfoldItems_cons nm k E F h
+    simp only [unfoldItems, hc.leaf_fuel (hl (nm, k) List.mem_cons_self) h1 hm,
+      unfoldItems_leaf_fuel hc E fr n m (fun x hx => hl x (List.mem_cons_of_mem _ hx)) h2 hm]
+
+/-- **`agg_upper_bound`, exactly as in DESIGN §7** (with `Types.unfold`, i.e. the default fuel of the
+aggregator's collection): `aggregateAll cs = .ok A →` for every contributor `(n, t, k)` the import
+`canon n` exists and `sub (unfold A (canon n)) (unfold t k)`. -/
+theorem agg_upper_bound_unfold (cs : List Req) (hf : fragB cs = true) (A : AggState)
+    (h : aggregateAll cs Agg.empty = .ok A) (r : Req) (hr : r ∈ cs) :
+    ∃ kind m c, amGet A.agg.imports (A.agg.canonical r.1) = some kind ∧ A.agg.types.unfold kind = some m ∧
+      r.2.1.unfold r.2.2 = some c ∧ sub m c = true := by
+  have hG := frag_invariant cs hf A h
+  obtain ⟨G, hmem, hfG⟩ := mem_withForests (fun r hr => ((fragB_spec hf).1 r hr).1) hr
+  obtain ⟨F, ⟨e, ti, h1, h2, h3, _⟩, hs⟩ := hG.tinv.sat (r, G) (by simpa using hmem)
+  refine ⟨.instance e, .instance F, .instance G, h1, ?_, (flatForest_spec hfG).2, hs⟩
+  obtain ⟨n, hn⟩ := h3.unf
+  have hlen : 1 ≤ A.agg.types.interfaces.length := Nat.lt_of_le_of_lt (Nat.zero_le _) (getElem?_lt h2)
+  have hfu : A.agg.types.fuel = (A.agg.types.fuel - 1) + 1 := by simp only [Types.fuel]; omega
+  simp only [Types.unfold]
+  rw [hfu]
+  simp only [Types.unfoldKind, h2,
+    unfoldItems_leaf_fuel hG.tinv.ainv.rinv.closed ti.exports F n (A.agg.types.fuel - 1) h3.leaf hn
+      (by simp only [Types.fuel]; omega)]
+  rfl
 
 /-- the merged import is the GREATEST type that satisfies all contributors of its class
 (needed for order independence; with `agg_upper_bound` it makes the merged import the greatest
@@ -289,8 +320,8 @@ theorem agg_idempotent_partial (cs : List Req) (hf : fragB cs = true) (A A' : Ag
   obtain ⟨Gq, hmemq, hfGq⟩ := mem_withForests (fun r hr => (hall r hr).1) hq
   have hmem0 : (r, G) ∈ (withForests cs).reverse := by simpa using hmem
   have hG' : GInv (collsOf cs (fragB_spec hf).2) ((r, G) :: (withForests cs).reverse) A' :=
-    ginv_step hG (flatForest_spec hfG).1 ⟨r, hr, rfl⟩
-      (fun hn => absurd (List.mem_map.2 ⟨(r, G), hmem0, rfl⟩) hn) h'
+    (ginv_step hG (flatForest_spec hfG).1 ⟨r, hr, rfl⟩
+      (fun hn => absurd (List.mem_map.2 ⟨(r, G), hmem0, rfl⟩) hn) h').1
   have hsame : ∀ p, p ∈ (withForests cs).reverse ↔ p ∈ (r, G) :: (withForests cs).reverse := by
     intro p
     constructor
@@ -365,12 +396,120 @@ theorem merge_interface_upper_bound {W : Colls} {types : Types} (hW : W.mem type
     flat_merge_lower_right F G hkF hGnd hc, fun X hX h1 h2 => flat_merge_greatest F G X hX h1 h2,
     flat_merge_names F G, hc⟩
 
+/-- **`fails_iff_incompatible` for one `merge_interface` call** (flat, with the repaired
+configuration and the fuel `aggregate` passes): the call never panics, and it succeeds exactly
+when the two interfaces give every export name they share the same type. -/
+theorem merge_interface_fails_iff {W : Colls} {types : Types} (hW : W.mem types) (hs : Sane types) {e : Nat}
+    (fuel id : Nat) (s : AggState) (F G : Forest) (si : Interface)
+    (hT : TState W e s F) (hcfg : s.cfg.remapReplaced = true) (hfuel : 2 * types.fuel + 2 ≤ fuel)
+    (hsi : types.interfaces[id]? = some si) (huses : si.uses = [])
+    (hleaf : ∀ x, x ∈ si.exports → LeafK x.2)
+    (hG : unfoldItems (types.unfoldKind types.fuel) si.exports = some G) (hGnd : G.namesDistinct = true) :
+    ((∃ s', mergeInterface fuel e types id s = .ok ((), s')) ↔ Consistent F G) ∧
+    (∀ err, mergeInterface fuel e types id s = .error err → ∃ m, err = .err m) := by
+  rcases mergeInterface_flat_total hW hs fuel id s F G si hT hcfg hfuel hsi huses hleaf hG hGnd with
+    ⟨s', h⟩ | ⟨m, h, hnc⟩
+  · refine ⟨⟨fun _ => (mergeInterface_flat hW hs fuel id s s' F G si hT hsi huses hleaf hG hGnd h).2.2,
+      fun _ => ⟨s', h⟩⟩, fun err he => ?_⟩
+    rw [h] at he; cases he
+  · refine ⟨⟨fun ⟨s', h'⟩ => ?_, fun hc => absurd hc hnc⟩, fun err he => ?_⟩
+    · rw [h] at h'; cases h'
+    · rw [h] at he; cases he; exact ⟨m, rfl⟩
+
 /-- the hypotheses are satisfiable on a non-trivial input: after aggregating `rA` its import is a
 legal target (`frag_tstate`), `cB`'s interface is a flat source, and the merge succeeds -/
 example : fragB [rA] = true ∧ Sane cB ∧ (∃ A, aggregateAll [rA] Agg.empty = .ok A) ∧
     ((aggregateAll [rA] Agg.empty).toOption.bind fun A =>
       (mergeInterface (aggFuel A.agg cB) 0 cB 0 A).toOption.map fun _ => ()) = some () :=
   ⟨by decide +kernel, sane_of_saneB (by decide +kernel), ok_of_isSome (by decide +kernel), by decide +kernel⟩
+
+/-! ### totality, `fails_iff_incompatible`, and the full order-independence theorems -/
+
+/-- the state reached has the configuration it started with, and satisfies the invariant -/
+theorem frag_invariant_cfg (cs : List Req) (hf : fragB cs = true) (A : AggState)
+    (h : aggregateAll cs Agg.empty = .ok A) : A.cfg = Agg.empty.cfg := by
+  obtain ⟨hall, hpw⟩ := fragB_spec hf
+  have hmap := withForests_map (fun r hr => (hall r hr).1)
+  exact (ginv_all (W := collsOf cs hpw) (withForests cs) [] Agg.empty A
+    (ginv_empty _ (by rintro C ⟨r, hr, rfl⟩; exact (hall r hr).2))
+    (by
+      intro p hp
+      obtain ⟨hm, hfp⟩ := withForests_mem hp
+      exact ⟨(flatForest_spec hfp).1, p.1, hm, rfl⟩)
+    (by intro p _ q hq; cases hq)
+    (by
+      have : ((withForests cs).map (·.1)).Pairwise (fun a b : Req => a.2.1.uid ≠ b.2.1.uid) := by
+        rw [hmap]; exact hpw
+      exact (List.pairwise_map (f := fun p : Req × Forest => p.1) (R := fun a b : Req => a.2.1.uid ≠ b.2.1.uid)).1 this)
+    (by rw [hmap]; exact h)).2
+
+/-- **`fails_iff_incompatible`** (fragment, full): aggregation never panics; it succeeds exactly
+when every two semver-compatible requirements give every export name they share the same type
+(`CompatAll`, an order-independent condition); otherwise it returns an error. -/
+theorem fails_iff_incompatible (cs : List Req) (hf : fragB cs = true) :
+    ((∃ A, aggregateAll cs Agg.empty = .ok A) ↔ CompatAll (withForests cs)) ∧
+    (∀ e, aggregateAll cs Agg.empty = .error e → ∃ m, e = .err m) := by
+  obtain ⟨hall, hpw⟩ := fragB_spec hf
+  have hmap := withForests_map (fun r hr => (hall r hr).1)
+  have := aggregateAll_total (W := collsOf cs hpw) (withForests cs) [] Agg.empty
+    (ginv_empty _ (by rintro C ⟨r, hr, rfl⟩; exact (hall r hr).2)) rfl
+    (by
+      intro p hp
+      obtain ⟨hm, hfp⟩ := withForests_mem hp
+      exact ⟨(flatForest_spec hfp).1, p.1, hm, rfl⟩)
+    (by intro p _ q hq; cases hq)
+    (by
+      have : ((withForests cs).map (·.1)).Pairwise (fun a b : Req => a.2.1.uid ≠ b.2.1.uid) := by
+        rw [hmap]; exact hpw
+      exact (List.pairwise_map (f := fun p : Req × Forest => p.1) (R := fun a b : Req => a.2.1.uid ≠ b.2.1.uid)).1 this)
+  rw [hmap, compatFrom_nil_iff] at this
+  exact this
+
+/-- two requirement lists that disagree: `f` is `func(x: list<u8>) -> string` in `cA` but `func()` in `cD` -/
+def cD : Types := { uid := 4, funcs := [{}], interfaces := [{ exports := [(['f'], .func 0)] }] }
+def rD : Req := ("a:b/c@0.2.3".toList, cD, .instance 0)
+
+/-- both directions are exercised: a compatible list succeeds, an incompatible one fails with an
+error (not a panic), in every position of the offending requirement -/
+example : fragB exList = true ∧ fragB [rA, rD] = true ∧
+    (aggregateAll exList Agg.empty).toOption.isSome = true ∧
+    (aggregateAll [rA, rD] Agg.empty).toOption.isSome = false ∧
+    (aggregateAll [rD, rA] Agg.empty).toOption.isSome = false := by decide +kernel
+
+/-- **`agg_perm`** (fragment, FULL): for a permutation of the contributors the verdict is the same
+(`Ok` in one order iff `Ok` in the other; an error is never a panic) and, when it is `Ok`, every
+contributor's merged import is the same type up to the order of its exports.  (The order of
+`imports` and the error text may differ, as the property statement allows.) -/
+theorem agg_perm (cs cs' : List Req) (hp : cs.Perm cs') (hf : fragB cs = true) :
+    ((∃ A, aggregateAll cs Agg.empty = .ok A) ↔ (∃ A', aggregateAll cs' Agg.empty = .ok A')) ∧
+    (∀ A A', aggregateAll cs Agg.empty = .ok A → aggregateAll cs' Agg.empty = .ok A' →
+      ∀ r, r ∈ cs → ∀ m m', MergedTree A r.1 m → MergedTree A' r.1 m' → sub m m' = true ∧ sub m' m = true) := by
+  have hf' := fragB_perm hp hf
+  refine ⟨?_, fun A A' h h' r hr m m' hm hm' => agg_perm_partial cs cs' hp hf A A' h h' r hr m m' hm hm'⟩
+  rw [(fails_iff_incompatible cs hf).1, (fails_iff_incompatible cs' hf').1]
+  have hmem : ∀ p, p ∈ withForests cs ↔ p ∈ withForests cs' := fun p => (hp.filterMap _).mem_iff
+  exact ⟨fun h p q hp' hq' hc => h p q ((hmem p).2 hp') ((hmem q).2 hq') hc,
+    fun h p q hp' hq' hc => h p q ((hmem p).1 hp') ((hmem q).1 hq') hc⟩
+
+example : exList.Perm [rC, rA, rB] ∧ fragB exList = true := ⟨by decide, by decide +kernel⟩
+
+/-- **`agg_idempotent`** (fragment, FULL): after a successful aggregation, aggregating any of the
+contributors once more succeeds and leaves every requirement's merged import the same type (up
+to the order of exports). -/
+theorem agg_idempotent (cs : List Req) (hf : fragB cs = true) (A : AggState)
+    (h : aggregateAll cs Agg.empty = .ok A) (r : Req) (hr : r ∈ cs) :
+    ∃ A', aggregate r.1 r.2.1 r.2.2 A = .ok ((), A') ∧
+      ∀ q, q ∈ cs → ∀ m m', MergedTree A q.1 m → MergedTree A' q.1 m' → sub m m' = true ∧ sub m' m = true := by
+  have hG := frag_invariant cs hf A h
+  obtain ⟨hall, hpw⟩ := fragB_spec hf
+  obtain ⟨G, hmem, hfG⟩ := mem_withForests (fun r hr => (hall r hr).1) hr
+  have hmem0 : (r, G) ∈ (withForests cs).reverse := by simpa using hmem
+  have hcfg : A.cfg.remapReplaced = true := by rw [frag_invariant_cfg cs hf A h]; rfl
+  have hcompat := (fails_iff_incompatible cs hf).1.1 ⟨A, h⟩
+  obtain ⟨_, hiff⟩ := aggregate_total hG hcfg (flatForest_spec hfG).1 ⟨r, hr, rfl⟩
+    (fun hn => absurd (List.mem_map.2 ⟨(r, G), hmem0, rfl⟩) hn)
+  obtain ⟨A', hA'⟩ := hiff.2 (fun q hq hc => hcompat (r, G) q hmem (by simpa using hq) hc)
+  exact ⟨A', hA', fun q hq m m' hm hm' => agg_idempotent_partial cs hf A A' h r hr hA' q hq m m' hm hm'⟩
 
 /-! ### outside the fragment: `type` exports of interface type (finding 8 of notes/C09.md) -/
 
